@@ -1,4 +1,5 @@
 import MimeModel.Model.Detect
+import MimeModel.Lemmas.DetectTie
 import MimeModel.Lemmas.JsonBackC
 /-
   C09 — malformed JSON is not reported as JSON.
@@ -157,5 +158,8 @@ theorem family_sound (raw : Bytes) (lim : Nat) (qs : List Gen.Json.Query) (w : N
 /- non-vacuity: an accepted relaxed document that is not RFC 8259 (trailing comma, liberal number) -/
 example : jsonHelper [0x5B, 0x31, 0x2E, 0x2C, 0x5D] 0 Gen.Json.q_json (tokObject ||| tokArray) = true := by decide
 example : J.strictDoc [0x5B, 0x31, 0x2E, 0x2C, 0x5D] = false := by decide
+
+/-- regenerated tie: `Detect` / `DetectReader` load the limit once, atomically (see Lemmas/DetectTie.lean) -/
+theorem tie_single_limit : Mime.DetectTie.SingleLimit := Mime.DetectTie.single_limit
 
 end Mime.C09
